@@ -264,6 +264,7 @@ func runC09(p *Program, r *Report) {
 	// ---- R4 the lock is never taken twice -------------------------------------------------------------------
 	checkNoReentrantLock(p, r, "C09.R4")
 	checkNoEscaperCopy(p, r, "C09.R6")
+	checkNoSelfAddParseTree(p, r, "C09.R7")
 	// ---- R2 foreign objects ---------------------------------------------------------------
 	type fstore struct {
 		fn    *ssa.Function
@@ -623,4 +624,47 @@ func checkNoEscaperCopy(p *Program, r *Report, rule string) {
 		return
 	}
 	r.OK(rule, "template.escaper#never-copied", "", fmt.Sprintf("%d uses of the name space's escaper: always through its address, never a copy of the struct (apart from what constructors return)", n))
+}
+
+// checkNoSelfAddParseTree: text/template's AddParseTree(name, tree) allocates a new template when name differs
+// from the receiver's own name, but assigns the receiver's Tree field in place when it is the same. commit() runs
+// on every first execution and adds all derived templates again; added through another template of the set each
+// time a new object is installed, added through itself the Tree field of an object that other goroutines are
+// executing is written. No call in package template may pass the receiver's own Name() as the name.
+func checkNoSelfAddParseTree(p *Program, r *Report, rule string) {
+	tsp := p.SSAPkg("template")
+	n := 0
+	for _, f := range p.SrcFuncs() {
+		if f.Pkg != tsp {
+			continue
+		}
+		short := strings.TrimPrefix(fnName(f), pkgTemplate+".")
+		k := 0
+		for _, b := range f.Blocks {
+			for _, in := range b.Instrs {
+				c, ok := in.(ssa.CallInstruction)
+				if !ok {
+					continue
+				}
+				g := staticCallee(c.Common())
+				if g == nil || fnName(g) != "(*text/template.Template).AddParseTree" || len(c.Common().Args) != 3 {
+					continue
+				}
+				n++
+				cn := fmt.Sprintf("%s#add-parse-tree%d", short, k)
+				k++
+				recv, name := c.Common().Args[0], c.Common().Args[1]
+				self := false
+				if nc, ok := name.(*ssa.Call); ok {
+					if h := staticCallee(nc.Common()); h != nil && fnName(h) == "(*text/template.Template).Name" && len(nc.Common().Args) == 1 && nc.Common().Args[0] == recv {
+						self = true
+					}
+				}
+				r.Check(!self, rule, cn, p.Pos(in.Pos()), "the tree is added under a name taken from another template than the receiver: text/template installs a new object", "a text template is added to the set through itself (AddParseTree(t.Name(), …) on t): text/template then assigns t.Tree in place, and since commit() adds every derived template again on each first execution, that write hits an object other goroutines are executing")
+			}
+		}
+	}
+	if n == 0 {
+		r.OK(rule, "template#add-parse-tree", "", "package template does not call text/template's AddParseTree")
+	}
 }
